@@ -275,9 +275,11 @@ Proof.
 Qed.
 
 (* ------------------------------------------------------------------ what is on disk *)
-(* size and age rule of one file of the writer *)
+(* size and age rule of one file of the writer: at most max_write_bytes, or a single line *)
+Definition size_rule (mw : N) (lines : list line) : bool :=
+  (sumN (map l_size lines) <=? mw) || (length lines <=? 1)%nat.
 Definition fprop (MW WA : N) (f : file) : Prop :=
-  file_size_ok MW (f_lines f) = true /\
+  size_rule MW (f_lines f) = true /\
   Forall (fun l => l_time l - f_created f <= WA) (f_lines f) /\
   f_lines f <> [].
 
@@ -336,7 +338,7 @@ Lemma fprop_add_line MW WA ev cf : fprop MW WA cf -> f_size cf + l_size ev <= MW
   l_time ev - f_created cf <= WA -> fprop MW WA (add_line ev cf).
 Proof.
   intros (Hs & Ha & Hne) Hsz Hag. unfold fprop, add_line. cbn [f_lines f_created]. splits.
-  - unfold file_size_ok. rewrite map_app, sumN_app. cbn [map]. rewrite sumN_cons, sumN_nil.
+  - unfold size_rule. rewrite map_app, sumN_app. cbn [map]. rewrite sumN_cons, sumN_nil.
     apply orb_true_iff. left. apply N.leb_le. unfold f_size in Hsz. lia.
   - apply Forall_app. split; auto.
   - destruct (f_lines cf); discriminate.
@@ -344,7 +346,7 @@ Qed.
 Lemma fprop_first_line MW WA ev nm : fprop MW WA (add_line ev (new_file nm (l_time ev))).
 Proof.
   unfold fprop, add_line, new_file. cbn [f_lines f_created app]. splits.
-  - unfold file_size_ok. apply orb_true_iff. right. reflexivity.
+  - unfold size_rule. apply orb_true_iff. right. reflexivity.
   - constructor; [lia|constructor].
   - discriminate.
 Qed.
@@ -491,7 +493,7 @@ Proof.
   exists (old ++ created), old, created. splits; auto.
   - symmetry. eapply Kills_length; eauto.
   - eapply Forall_impl; [|exact Hf]. intros f (Hs & Ha & Hne). split; auto.
-    unfold file_size_ok in Hs. apply orb_true_iff in Hs as [Hs|Hs].
+    unfold size_rule in Hs. apply orb_true_iff in Hs as [Hs|Hs].
     + left. apply N.leb_le in Hs. exact Hs.
     + right. apply Nat.leb_le in Hs. destruct (f_lines f) as [|? [|? ?]]; cbn in *; try lia. contradiction.
 Qed.
